@@ -43,7 +43,10 @@ RULE = ("kind t/m: random element trees to depth 6 / width 6 (node budget 60), t
         "with repeated sibling tags, values and text over printable ASCII (plus some Latin-1) biased to markup characters "
         "and to near-references that are not references, printed by the printer of Spec_C32.v (re-checked by the driver "
         "with the extracted print_el; kind m: the same trees rendered with a random mix of named, decimal and hexadecimal references) with find queries (existing, partly wrong and odd paths, // forms, attribute "
-        "tests, from the root and from inner elements); plus the three refuted regions (reference-shaped text, blank-only "
+        "tests, from the root and from inner elements); lookup trees whose attribute values come from a pool of near-misses "
+        "(proper prefixes, extensions, empty value, case variants, the same value under another name) queried through both find "
+        "overloads with filter values drawn from the values present, their prefixes/extensions and absent values, null atag/aval "
+        "pointers and other delimiters, absolute and relative paths; plus the three refuted regions (reference-shaped text, blank-only "
         "text, attribute docpath). kind b: truncation of printed documents at every offset, byte flips/insertions/"
         "deletions, duplicate attributes, unbalanced tags, nesting to and beyond MaxDepth, stray '&', reference soup, "
         "unterminated comments/quotes/declarations, newlines before errors, NUL bytes, random bytes up to 4 KB. "
@@ -269,6 +272,77 @@ def rand_queries(rng, t, n):
     return ";".join(qs) if qs else "-"
 
 
+# ---- filtered lookups: attribute values from a small pool full of near-misses
+VPOOL = [b"DLD1", b"DLD10", b"DLD", b"dld1", b"DLD1 ", b"", b"D", b"DLD12", b"init", b"initiator", b"Init", b"1", b"10", b"<&>"]
+FKEYS = [b"name", b"role", b"id"]
+
+
+def lookup_tree(rng, depth, width, budget):
+    tagset = TAGS[:rng.choice((1, 2, 3))]
+    pool = rng.sample(VPOOL, rng.choice((3, 5, len(VPOOL))))
+
+    def go(d):
+        budget[0] -= 1
+        t = T(rng.choice(tagset))
+        t.attrs = [(k, rng.choice(pool)) for k in rng.sample(FKEYS, rng.choice((1, 2, 2, 3)))]
+        if rng.random() < 0.2:
+            t.value = rand_value_text(rng)
+        if d < depth:
+            for _ in range(rng.randrange(1, width + 1)):
+                if budget[0] <= 0:
+                    break
+                t.kids.append(go(d + 1))
+        return t
+    return go(0)
+
+
+def near_values(rng, v, present):
+    """the value itself, proper prefixes (incl. the empty one), extensions, case variants, other/absent values"""
+    c = [v, v, v[:len(v) // 2], v[:-1], b"", v + b"0", v + b" ", v.swapcase(), v.lower(), b"absent", rng.choice(VPOOL)]
+    if present:
+        c += [rng.choice(present)] * 2
+    return rng.choice(c)
+
+
+def filter_queries(rng, t, n):
+    al = list(addresses(t))
+    present = sorted(set(v for _, x in al for _, v in x.attrs))
+    qs = []
+    for _ in range(n):
+        a, node = rng.choice(al)
+        comps = [t.tag]
+        cur = t
+        for i in a:
+            cur = cur.kids[i]
+            comps.append(cur.tag)
+        delim = rng.choice((b"/", b"/", b"/", b"|", b",", b"!"))
+        start = ()
+        r = rng.random()
+        if r < 0.35:
+            path = b"//" + delim.join(comps)
+            start = rng.choice(al)[0]
+        elif r < 0.65 and a:
+            cut = rng.randrange(1, len(a) + 1)
+            start = a[:cut]
+            path = delim.join(comps[cut:])
+        else:
+            path = delim.join(comps)
+        k, v = rng.choice(node.attrs)
+        m = rng.random()
+        if m < 0.12:                          # the same value under another attribute name
+            k = rng.choice([x for x in FKEYS if x != k])
+        elif m < 0.18:
+            k = b"absent"
+        v = near_values(rng, v, present)
+        kf = "~" if rng.random() < 0.06 else k.hex()
+        vf = "~" if rng.random() < 0.06 else v.hex()
+        q = "%s:%s:%s:%s:%s" % (rng.choice("1A"), render_addr(start), path.hex(), kf, vf)
+        if delim != b"/" or rng.random() < 0.2:
+            q += ":" + delim.hex()
+        qs.append(q)
+    return ";".join(qs)
+
+
 def tcase(t, queries, cls):
     return Case("t %s %s %s" % (print_el(t).hex(), dump(t), queries), cls)
 
@@ -356,6 +430,13 @@ def gen_cases(rng, tier):
             small.append(t)
         if n % 3 == 0:
             cs.append(mcase(rng, t, rand_queries(rng, t, 2), "tree-wf-mixed-references"))
+    # filtered lookups over near-miss attribute values
+    for n in range(300 if thorough else 80):
+        t = lookup_tree(rng, rng.choice((1, 2, 3)), rng.choice((2, 3, 5)), [rng.choice((4, 10, 25))])
+        if n % 4 == 0:
+            cs.append(mcase(rng, t, filter_queries(rng, t, 12), "tree-filtered-find"))
+        else:
+            cs.append(tcase(t, filter_queries(rng, t, 12), "tree-filtered-find"))
     # full depth 6 / width 6 skeletons
     for _ in range(20 if thorough else 4):
         t = rand_tree(rng, 6, 6, [rng.choice((200, 400))], tags=TAGS[:3])
